@@ -57,9 +57,9 @@ Qed.
 Lemma Mm_sep_tokens item sep : Mm (sep_tokens item sep).
 Proof. intros i c. unfold sep_tokens. apply Mm_sep_tokens_go. Qed.
 
-Lemma Mm_sep_list_rec {A} (p : P A) sep : Mm p -> forall fuel acc, Mm (sep_list_rec fuel p sep acc).
+Lemma Mm_sep_list_rec {A} (p : P A) sep : Mm p -> forall fuel prev acc, Mm (sep_list_rec fuel p sep prev acc).
 Proof.
-  intros Hp. induction fuel as [|f IH]; intros acc i c; cbn [sep_list_rec]; [reflexivity|].
+  intros Hp. induction fuel as [|f IH]; intros prev acc i c; cbn [sep_list_rec]; [reflexivity|].
   mm_use Hp i c r c1 M1. unfold exp_token.
   destruct r as [rest a|e m|s|]; cbn [snd]; try exact M1.
   - destruct (exp_token_go sep rest rest) as [rest2 t2|e2 m2|s|]; cbn [snd]; try exact M1. rewrite IH. exact M1.
